@@ -156,11 +156,14 @@ fn c18_material_without_additional_data() { minimal_material(0); }
 #[kani::stub(core::str::validations::run_utf8_validation, crate::verif_support::refs::ascii_utf8_validation)]
 fn c18_material_with_two_bytes_of_additional_data() { minimal_material(2); }
 
-fn minimal_material(additional: u8) {
-    let mut b: [u8; MT_TOTAL] = kani::any();
-    let put16 = |b: &mut [u8; MT_TOTAL], o: usize, v: u16| { let x = v.to_le_bytes(); b[o] = x[0]; b[o + 1] = x[1]; };
-    let put32 = |b: &mut [u8; MT_TOTAL], o: usize, v: u32| { let x = v.to_le_bytes(); b[o] = x[0]; b[o + 1] = x[1]; b[o + 2] = x[2]; b[o + 3] = x[3]; };
-    let le32 = |b: &[u8; MT_TOTAL], o: usize| u32::from_le_bytes([b[o], b[o + 1], b[o + 2], b[o + 3]]);
+fn minimal_material(additional: u8) { material_case::<0, { MT_TOTAL }>(additional, 0); }
+
+/// DYE = size of the dye table stored behind the table flags; TOTAL = MT_TOTAL + DYE
+fn material_case<const DYE: usize, const TOTAL: usize>(additional: u8, flags: u32) {
+    let mut b: [u8; TOTAL] = kani::any();
+    let put16 = |b: &mut [u8; TOTAL], o: usize, v: u16| { let x = v.to_le_bytes(); b[o] = x[0]; b[o + 1] = x[1]; };
+    let put32 = |b: &mut [u8; TOTAL], o: usize, v: u32| { let x = v.to_le_bytes(); b[o] = x[0]; b[o + 1] = x[1]; b[o + 2] = x[2]; b[o + 3] = x[3]; };
+    let le32 = |b: &[u8; TOTAL], o: usize| u32::from_le_bytes([b[o], b[o + 1], b[o + 2], b[o + 3]]);
     // file header: version, file size, data set size (symbolic), string table size, package name offset, counts
     put16(&mut b, 8, 16); put16(&mut b, 10, 8);
     b[12] = 1; b[13] = 0; b[14] = 0; b[15] = additional;      // 1 texture, no uv / colour sets, 4 (or fewer) bytes of additional data
@@ -168,28 +171,48 @@ fn minimal_material(additional: u8) {
     let strings = b"t/a.tex\0sh.shpk\0";
     let mut i = 0;
     while i < 16 { b[20 + i] = strings[i]; i += 1; }
-    put32(&mut b, 36, 0);                                      // table flags: no colour table, no dye table
+    put32(&mut b, 36, flags);                                  // table flags
     // 40: material header: value list size 8, 1 key, 1 constant, 1 sampler, flags (symbolic)
-    put16(&mut b, 40, 8); put16(&mut b, 42, 1); put16(&mut b, 44, 1); put16(&mut b, 46, 1);
+    put16(&mut b, 40 + DYE, 8); put16(&mut b, 42 + DYE, 1); put16(&mut b, 44 + DYE, 1); put16(&mut b, 46 + DYE, 1);
     // 52: shader key (category, value) symbolic; 60: constant (id symbolic, offset 0, size 8)
-    put16(&mut b, 64, 0); put16(&mut b, 66, 8);
+    put16(&mut b, 64 + DYE, 0); put16(&mut b, 66 + DYE, 8);
     // 68: sampler: usage tag (concrete: Sampler0), flags, index, 3 unknown bytes (symbolic)
-    put32(&mut b, 68, 0x213CB439);
+    put32(&mut b, 68 + DYE, 0x213CB439);
     // 80: two floats (symbolic)
     let m = Material::from_existing(&b).unwrap();
     assert!(m.shader_package_name.as_bytes() == b"sh.shpk");
     assert_eq!(m.texture_paths.len(), 1);
     assert!(m.texture_paths[0].as_bytes() == b"t/a.tex");
     assert_eq!(m.shader_keys.len(), 1);
-    assert_eq!((m.shader_keys[0].category, m.shader_keys[0].value), (le32(&b, 52), le32(&b, 56)));
+    assert_eq!((m.shader_keys[0].category, m.shader_keys[0].value), (le32(&b, 52 + DYE), le32(&b, 56 + DYE)));
     assert_eq!(m.constants.len(), 1);
-    assert_eq!((m.constants[0].id, m.constants[0].num_values), (le32(&b, 60), 2));
-    assert_eq!((m.constants[0].values[0].to_bits(), m.constants[0].values[1].to_bits()), (le32(&b, 80), le32(&b, 84)));
+    assert_eq!((m.constants[0].id, m.constants[0].num_values), (le32(&b, 60 + DYE), 2));
+    assert_eq!((m.constants[0].values[0].to_bits(), m.constants[0].values[1].to_bits()), (le32(&b, 80 + DYE), le32(&b, 84 + DYE)));
     assert_eq!((m.constants[0].values[2].to_bits(), m.constants[0].values[3].to_bits()), (0, 0));
     assert_eq!(m.samplers.len(), 1);
     assert!(matches!(m.samplers[0].texture_usage, TextureUsage::Sampler0));
-    assert_eq!((m.samplers[0].flags, m.samplers[0].texture_index, m.samplers[0].unknown3), (le32(&b, 72), b[76], b[79]));
-    assert!(m.color_table.is_none() && m.color_dye_table.is_none());
+    assert_eq!((m.samplers[0].flags, m.samplers[0].texture_index, m.samplers[0].unknown3), (le32(&b, 72 + DYE), b[76 + DYE], b[79 + DYE]));
+    assert!(m.color_table.is_none());
+    if DYE == 0 {
+        assert!(m.color_dye_table.is_none());
+    } else {
+        // 32 rows of one u32 each, stored right behind the table flags
+        match &m.color_dye_table {
+            Some(ColorDyeTable::DawntrailColorDyeTable(t)) => {
+                assert_eq!(t.rows.len(), 32);
+                assert_eq!(DYE, 128);
+            }
+            _ => panic!("wrong dye table kind"),
+        }
+    }
     kani::cover!(true);
     core::mem::forget(m);
 }
+
+/// C14: a material whose table flags announce a dye table with dimension logs 0x5F (the upper end of the Dawntrail
+/// range) and no colour table: the 32-row dye table is read from behind the flags and everything after it keeps its place
+#[kani::proof]
+#[kani::unwind(40)]
+#[kani::stub(core::str::validations::run_utf8_validation, crate::verif_support::refs::ascii_utf8_validation)]
+fn c14_material_with_dawntrail_dye_table_5f() { material_case::<128, { MT_TOTAL + 128 }>(4, 0x5F8); }
+
